@@ -7617,7 +7617,7 @@ def fn2(m, run, rule='FN2.facet-normal-is-the-edge-cross-product'):
         try:
             out = sk.call(fi, [tri], {})
         except Raised as ex:
-            return 'raises %s' % ex.kind
+            return 'raises %s' % ex.exc
         if not isinstance(out, (list, tuple)) or len(out) != 3:
             return 'returns %s, not a 3-D vector' % repr(out)[:100]
         r = [_as_sym(x) for x in out]
@@ -8059,7 +8059,7 @@ def gw2(m, run, rule='GW2.weighted-grid-follows-its-grid-and-weights'):
     except Violation as v:
         why = '%s %s   [%s]' % (v.msg, v.where(), steps[-1] if steps else 'construction')
     except Raised as ex:
-        why = 'raises %s   [%s]' % (ex.kind, steps[-1] if steps else 'construction')
+        why = 'raises %s   [%s]' % (ex.exc, steps[-1] if steps else 'construction')
     except Unsupported as ex:
         raise AnalysisError('CPGen.GridWeighted: interpreter met an unsupported construct: %s' % ex)
     ci = m.classes[cls]
@@ -8157,7 +8157,7 @@ def ct2(m, run, rule='CT2.container-mesh-is-numbered-afresh-on-every-rebuild'):
         except Violation as v:
             why = '%s %s   [%s]' % (v.msg, v.where(), step)
         except Raised as ex:
-            why = 'raises %s   [%s]' % (ex.kind, step)
+            why = 'raises %s   [%s]' % (ex.exc, step)
         except Unsupported as ex:
             raise AnalysisError('%s: interpreter met an unsupported construct: %s' % (fi.key, ex))
         if why:
@@ -8222,7 +8222,7 @@ def tt2(m, run, rule='TT2.component-tessellates-what-it-is-given-every-time'):
         except Violation as v:
             why = '%s %s' % (v.msg, v.where())
         except Raised as ex:
-            why = 'raises %s' % ex.kind
+            why = 'raises %s' % ex.exc
         except Unsupported as ex:
             raise AnalysisError('tessellate.%s: interpreter met an unsupported construct: %s' % (cname, ex))
         ci = m.classes[cls]
@@ -8315,7 +8315,7 @@ def ec2(m, run, rule='EC2.extracted-shapes-are-independent'):
         except Violation as v:
             why = '%s %s' % (v.msg, v.where())
         except Raised as ex:
-            why = 'raises %s' % ex.kind
+            why = 'raises %s' % ex.exc
         except Unsupported as ex:
             raise AnalysisError('%s: interpreter met an unsupported construct: %s' % (fi.key, ex))
         run.ob(rule, fi.key, why is None, 'the extracted shapes and the input reach disjoint lists and dictionaries' if why is None else why, 'geomdl/construct.py:%d in %s' % (fi.node.lineno, fi.key))
@@ -8349,3 +8349,60 @@ def ls2(m, run, rule='LS2.single-parameter-is-used-as-given'):
     except Unsupported as ex:
         raise AnalysisError('%s: interpreter met an unsupported construct: %s' % (fi.key, ex))
     run.ob(rule, fi.key, why is None, 'linspace(a, a, n, decimals) is [a]' if why is None else why, 'geomdl/linalg.py:%d in %s' % (fi.node.lineno, fi.key))
+
+
+# ====================================================================================== C10 / C12: rotation without inplace works on a copy
+def rt5(m, run, rule='RT5.rotation-without-inplace-works-on-a-copy'):
+    """RT5: operations.rotate interpreted on an abstract shape with labelled control points, for every axis, without `inplace` and with
+    inplace=False: the shape passed in holds the very same control point lists with the very same coordinates afterwards, the returned
+    object is another object none of whose control point lists is one of the argument's, and its coordinates are the rotated ones
+    (they depend on the rotation origin); with inplace=True the object passed in is returned"""
+    fi = m.func('operations.rotate')
+    bad, cnt = [], 0
+    for pdim in (1, 2):
+        for axis in (0, 1, 2):
+            for kw in ({}, {'inplace': False}):
+                cnt += 1
+                g = _abs_shape_for_transform(0, pdim, 3, 3)
+
+                def clone(x):
+                    c_ = Bag('rec:shape', **{k_: deepcopy_plain(v_) for k_, v_ in x._a.items() if k_ not in ('__iter__', '__deepcopy__')})
+                    c_._a['__iter__'] = [c_]
+                    c_._a['__deepcopy__'] = clone
+                    return c_
+                g._a['__deepcopy__'] = clone        # (what copy.deepcopy does to a shape: new lists, the same numbers)
+                before = [(id(pt), [id(c) for c in pt]) for pt in g._a['ctrlpts']]
+                before_list = id(g._a['ctrlpts'])
+                sk = SK(m, dict(STD_ABSTRACTED))
+                why = None
+                try:
+                    out = sk.call(fi, [g, DEF()], dict(kw, axis=axis))
+                    after = [(id(pt), [id(c) for c in pt]) for pt in g._a['ctrlpts']]
+                    if id(g._a['ctrlpts']) != before_list or after != before:
+                        why = 'the control points of the shape passed in are changed'
+                    elif out is g or not isinstance(out, Bag):
+                        why = 'the shape passed in is what is returned'
+                    else:
+                        cp = out._a.get('ctrlpts')
+                        mine = {id(pt) for pt in g._a['ctrlpts']} | {before_list}
+                        if not isinstance(cp, list) or len(cp) != 3:
+                            why = 'the result has %r control points' % (len(cp) if isinstance(cp, list) else cp)
+                        elif id(cp) in mine or any(id(pt) in mine for pt in cp):
+                            why = 'the result holds control point lists of the shape passed in'
+                        elif not all(isinstance(v, Tok) and any(l[0] == 'start' for l in (v.dep or ())) for pt in cp for v in pt):
+                            why = 'the result is not rotated (its coordinates do not depend on the rotation origin)'
+                except Violation as v:
+                    why = '%s %s' % (v.msg, v.where())
+                except Unsupported as ex:
+                    raise AnalysisError('%s: interpreter met an unsupported construct: %s' % (fi.key, ex))
+                if why:
+                    bad.append(('%s, axis %d, %s' % (('curve', 'surface')[pdim - 1], axis, 'inplace=False' if kw else 'no inplace keyword'), why))
+    cnt += 1
+    g = _abs_shape_for_transform(0, 1, 3, 3)
+    try:
+        if SK(m, dict(STD_ABSTRACTED)).call(fi, [g, DEF()], {'inplace': True}) is not g:
+            bad.append(('inplace=True', 'the shape passed in is not what is returned'))
+    except Violation as v:
+        bad.append(('inplace=True', '%s %s' % (v.msg, v.where())))
+    run.ob(rule, '%s :: %d cases' % (fi.key, cnt), not bad, 'argument untouched, result an independent rotated copy; the argument itself with inplace=True' if not bad else '%s: %s   [%d of %d]' % (bad[0][0], bad[0][1], len(bad), cnt),
+           'geomdl/operations.py:%d in %s' % (fi.node.lineno, fi.key))
